@@ -21,7 +21,7 @@ Definition Pat (n s : N) : bytes := pat_aux (N.to_nat n) s.
     0 = nil, 1 = checksum mismatch, 2 = empty record, 9 = anything else *)
 Definition robs := (list (N * N * N * bytes) * N)%type.
 
-Record case := {
+Record fcase := {
   c_segsize : N;
   c_recs : list (N * bytes);
   c_infos : list (N * N);
@@ -63,7 +63,7 @@ Definition obs_recs (o : robs) : list rec :=
 
 Definition last_seg_id (infos : list (N * N)) : N := fst (last infos (1, 0)).
 
-Definition check (c : case) : verdict :=
+Definition check_full (c : fcase) : verdict :=
   let rs := map to_rec (c_recs c) in
   let rs2 := map to_rec (c_recs2 c) in
   (* model *)
@@ -88,9 +88,74 @@ Definition check (c : case) : verdict :=
           && recs_eqb (obs_recs (c_obs2 c)) (expect1 ++ rs2) && (snd (c_obs2 c) =? 0)) in
   mk_verdict mismatch violation 0.
 
+(** ** Records too large to carry as literals (1 MiB .. above 64 MiB)
+
+    Payloads are symbolic: [PP n s] stands for [Pat n s] and is never expanded; the
+    harness prints a delivered payload as [PP n s] only after comparing all of its bytes
+    with the pattern.  The model's prediction needs no evaluation on the bytes: by
+    C13_replay_all / C13_reopen_appends replay delivers exactly the appended records at the
+    positions AppendRecords returned, and by C13_placement_by_length those positions are
+    [place] of the payload lengths. *)
+Inductive pl := PH (b : bytes) | PP (n s : N).
+
+Definition pl_len (p : pl) : N := match p with PH b => blen b | PP n _ => n end.
+Definition pl_eqb (a b : pl) : bool :=
+  match a, b with
+  | PH x, PH y => bytes_eqb x y
+  | PP n s, PP n' s' => (n =? n') && (s =? s')   (* the harness prints a non-pattern payload with s >= 256 *)
+  | _, _ => false
+  end.
+
+Definition bobs := (list (N * N * N * pl) * N)%type.
+
+Record bcase := {
+  b_segsize : N;
+  b_recs : list (N * pl);
+  b_infos : list (N * N);
+  b_obs1 : bobs;             (* Replay after Close *)
+  b_verr : N;                (* VerifyDir error class *)
+  b_recs2 : list (N * pl);
+  b_infos2 : list (N * N);
+  b_obs2 : bobs              (* Replay after VerifyDir + Open + AppendRecords *)
+}.
+
+Definition delivered_eqb (infos : list (N * N)) (rs : list (N * pl)) (o : bobs) : bool :=
+  (snd o =? 0) &&
+  all2 (fun (ir : (N * N) * (N * pl)) (x : N * N * N * pl) =>
+          let '(s, off, t, p) := x in
+          (fst (fst ir) =? s) && (snd (fst ir) =? off) && (fst (snd ir) mod 256 =? t) && pl_eqb (snd (snd ir)) p)
+       (combine infos rs) (fst o).
+
+Definition recs_only_eqb (rs : list (N * pl)) (o : bobs) : bool :=
+  (snd o =? 0) &&
+  all2 (fun (r : N * pl) (x : N * N * N * pl) =>
+          let '(_, _, t, p) := x in (fst r mod 256 =? t) && pl_eqb (snd r) p) rs (fst o).
+
+Definition check_big (c : bcase) : verdict :=
+  let seg := eff_segsize (b_segsize c) in
+  let '(i1, (id1, sz1)) := place seg 1 0 (map (fun r => pl_len (snd r)) (b_recs c)) in
+  let '(i2, _) := place seg id1 sz1 (map (fun r => pl_len (snd r)) (b_recs2 c)) in
+  let mismatch :=
+    negb (all2 info_eqb i1 (b_infos c) && delivered_eqb i1 (b_recs c) (b_obs1 c) && (b_verr c =? 0)
+          && all2 info_eqb i2 (b_infos2 c)
+          && delivered_eqb (i1 ++ i2) (b_recs c ++ b_recs2 c) (b_obs2 c)) in
+  (* the specification: replay yields exactly the appended records, in order, with their types *)
+  let violation :=
+    negb (recs_only_eqb (b_recs c) (b_obs1 c) && (b_verr c =? 0)
+          && recs_only_eqb (b_recs c ++ b_recs2 c) (b_obs2 c)) in
+  mk_verdict mismatch violation 0.
+
+Inductive case := CF (f : fcase) | CB (b : bcase).
+Definition check (c : case) : verdict :=
+  match c with CF f => check_full f | CB b => check_big b end.
+
 (* compact constructors for the harness *)
 Definition H (s : string) : bytes := unhex s.
 Definition Cs (seg : N) (rs : list (N * bytes)) (is : list (N * N)) (cut : option N)
   (o1 : robs) (rs2 : list (N * bytes)) (is2 : list (N * N)) (o2 : robs) : case :=
-  {| c_segsize := seg; c_recs := rs; c_infos := is; c_cut := cut; c_obs1 := o1;
-     c_recs2 := rs2; c_infos2 := is2; c_obs2 := o2 |}.
+  CF {| c_segsize := seg; c_recs := rs; c_infos := is; c_cut := cut; c_obs1 := o1;
+        c_recs2 := rs2; c_infos2 := is2; c_obs2 := o2 |}.
+Definition Cb (seg : N) (rs : list (N * pl)) (is : list (N * N)) (o1 : bobs) (verr : N)
+  (rs2 : list (N * pl)) (is2 : list (N * N)) (o2 : bobs) : case :=
+  CB {| b_segsize := seg; b_recs := rs; b_infos := is; b_obs1 := o1; b_verr := verr;
+        b_recs2 := rs2; b_infos2 := is2; b_obs2 := o2 |}.
